@@ -546,6 +546,18 @@ def scenario(s, spec):
     for i, kinds in enumerate(spec["remote"]):
         t = real_threading.Thread(target=caller, args=("R%d" % i, rp, kinds, spec["nb"]), name="R%d" % i)
         threads.append(t)
+    if spec.get("send_fault") is not None:
+        # a transient OS-level failure (ENOBUFS) of the k-th transmission of a method request: outside the model's
+        # notion of a connection fault (the connection stays up); judged by the property oracles only
+        cnt = {"n": 0}
+
+        def hook(data, k=int(spec["send_fault"])):
+            if b"MethodRpcRequestMessage" in data:
+                cnt["n"] += 1
+                if cnt["n"] == k + 1:
+                    return OSError(105, "No buffer space available")
+            return None
+        dsched.FakeNet.send_hook = hook
     for t in threads:
         t.start()
     f = spec["fault"]
